@@ -21,14 +21,14 @@ NA = {
 CHECKS = {
  'C18': ('E-THR', 'engines/e_thr.py',
          'deterministic simulation: controller.py executed on a simulated threading under seeded schedules (random/PCT/sticky/starvation), history oracle + deadlock and fair-schedule liveness detection',
-         'seeded search over interleavings at synchronisation-primitive granularity of one solver thread (stub loop or the real Solver.solve) and 1-2 interface threads (unique or equal thread names, a CLI front end in some runs, two waiting front ends that meet before they continue, generated controller methods called by keyword or position) running the unmodified controller.py; exactly-once, result delivery, pause/no-progress, deadlock and bounded liveness under a fair schedule are checked on every run. Sampling, not proof: a clean batch is evidence.',
+         'seeded search over interleavings at synchronisation-primitive granularity of one solver thread (stub loop or the real Solver.solve) and 1-2 interface threads (unique or equal thread names, a CLI front end in some runs, two waiting front ends that meet before they continue, generated controller methods called by keyword or position, one Controller object shared by both front ends) running the unmodified controller.py; exactly-once, result delivery, pause/no-progress, deadlock and bounded liveness under a fair schedule are checked on every run. Sampling, not proof: a clean batch is evidence.',
          'trusts vsim.simthreads to implement CPython Lock/RLock/Condition semantics (FIFO notify, no spurious wake-ups); solver and front-end I/O are fakes; blocking-mode commands (executed in the caller) are outside the statement',
          'DESIGN.md section 3 E-THR'),
 }
 
 CHECKS['C10'] = ('E-SOLVE', 'engines/e_solve.py',
     'deterministic simulation: real Solver.solve driven by a scripted environment (fake integrator answering adaptive steps, fake clock with jumps, callbacks), trace predicates over the recorded step/dump history',
-    'seeded search over (dt, tf, pfreq, requested output times incl. clusters/step-time coincidences/1-ulp neighbours, n_damp, max_steps, adaptive answer sequences incl. None and order-of-magnitude jumps, callbacks, command handler, progress-bar clock jumps; parameters through the constructor or through the setters in a drawn order; a second Solver instance with callbacks of its own in the process; a run stopped by max_steps continued with a second solve()); predicates: reaches tf, time strictly increases, step <= nominal, dumps at start/end/pfreq/requested times never stepped over, recorded dt nominal, callbacks once per step. Sampling, not proof.',
+    'seeded search over (dt, tf, pfreq, requested output times incl. clusters/step-time coincidences/1-ulp neighbours, n_damp, max_steps, adaptive answer sequences incl. None and order-of-magnitude jumps, callbacks, command handler, progress-bar clock jumps; parameters through the constructor or through the setters in a drawn order; a second Solver instance with callbacks of its own in the process; a run stopped by max_steps continued with a second solve(), optionally without the initial damping); predicates: reaches tf, time strictly increases, step <= nominal, dumps at start/end/pfreq/requested times never stepped over, recorded dt nominal, callbacks once per step. Sampling, not proof.',
     'integrator, particle arrays, dump_output and the clock are fakes; the writers themselves are C11\'s subject; tolerances are 4x the solver\'s own epsilon',
     'DESIGN.md section 3 E-SOLVE')
 
@@ -40,7 +40,7 @@ CHECKS['C06'] = ('E-PA', 'engines/e_pa.py',
 
 CHECKS['C01'] = ('E-NNPS', 'engines/e_nnps.py',
     'deterministic simulation: seeded update histories (move / h change / add / remove / cache toggle / re-order + update) and cache-fill schedules (lazy fill in a drawn order, find_all_neighbors under drawn thread counts, implicit/explicit context) on every compiled CPU NNPS class, exact brute-force oracle with an equality band; every run in its own forked child',
-    'seeded search over (distribution incl. lattice-on-faces/coincident/collinear/far-from-origin/h over decades, class and knobs, 1-3 arrays with Local or mixed tags, all (src,dst) pairs, update history, query mode incl. cached and uncached queries sharing one output array, arrays empty at construction and filled later, the same pair asked across an update without set_context); oracle: no missing / extra / duplicate / out-of-range index. Classes with recorded defects (z-order family, octree crashes) get a fixed small share of the runs and are attributed to narrowly signed known findings. Sampling, not proof.',
+    'seeded search over (distribution incl. lattice-on-faces/coincident/collinear/far-from-origin/h over decades, class and knobs, 1-3 arrays with Local or mixed tags, all (src,dst) pairs, update history, query mode incl. cached and uncached queries sharing one output array, arrays empty at construction and filled later, all arrays on one line along an axis, the same pair asked across an update without set_context); oracle: no missing / extra / duplicate / out-of-range index. Classes with recorded defects (z-order family, octree crashes) get a fixed small share of the runs and are attributed to narrowly signed known findings. Sampling, not proof.',
     'brute-force oracle in Python floats; pairs within 1e-12 relative of the cut-off may go either way; approximate=False; grid size bounded; slow (>25 s) runs are counted, not reported; real OpenMP threads for find_all_neighbors (static schedule) are not owned by the simulator',
     'DESIGN.md section 3 E-NNPS')
 CHECKS['C17'] = ('E-NNPS', 'engines/e_nnps.py',
@@ -69,7 +69,7 @@ CHECKS['C05'] = ('E-OMP', 'engines/e_omp.py',
 
 CHECKS['C14'] = ('E-INTERP', 'engines/e_interp.py',
     'deterministic simulation (history dimension): seeded histories of interpolate / move+update / h change / value change / update_particle_arrays / set_interpolation_points on the real Interpolator (5 methods, generated evaluators) and, for 30% of the runs, the same equations through SPHEvaluator, each result compared with brute-force defining sums using the Python kernel classes',
-    'seeded search over 1-3 source arrays, dims 1-3, variable h / mass / density, properties missing in some arrays, explicit targets (1-D or 2-D arrays in C / Fortran order, integer-typed, zero coordinates left out) or the automatic grid, periodic domains, kernels, and re-binding/update histories; results compared at the user\'s own target points, result shape, earlier results unchanged, detected dimension and automatic-grid bounds, a second Interpolator alive, a flat array listed last, data in a small length unit; Shepard / sph / splash / splash_norm against their sums (zero where no source is in range, Shepard bounds), order1 against the solved moment system and linear-field reproduction where well conditioned. Sampling, not proof.',
+    'seeded search over 1-3 source arrays, dims 1-3, variable h / mass / density, properties missing in some arrays, explicit targets (1-D or 2-D arrays in C / Fortran order, integer-typed, zero coordinates left out) or the automatic grid, periodic domains, kernels, and re-binding/update histories; results compared at the user\'s own target points, result shape, earlier results unchanged, detected dimension and automatic-grid bounds, a second Interpolator alive, a flat array listed last, data in a small length unit, re-binding back to the original arrays, update(update_domain=False); Shepard / sph / splash / splash_norm against their sums (zero where no source is in range, Shepard bounds), order1 against the solved moment system and linear-field reproduction where well conditioned. Sampling, not proof.',
     'oracle reads the source arrays as they are (ghost creation is C07\'s subject) and the target h the interpolator holds; 1e-9 relative tolerance; order1 skipped where cond(moment) >= 1e6',
     'DESIGN.md section 3 E-INTERP')
 
@@ -81,7 +81,7 @@ CHECKS['C03'] = ('E-GROUP', 'engines/e_group.py',
 
 CHECKS['C04'] = ('E-INTEG', 'engines/e_integ.py',
     'deterministic simulation: every shipped integrator and three user-defined ones (tracing steppers, py_stage hooks, two equation sets, update_nnps=False, different / same-class steppers per array, particle-injecting hook, an empty array) and shipped steppers, compiled by the real generator and stepped serially or under a simulated loop schedule; refinement check against a literal execution of the Python one_timestep (proxy self, Python stepper methods)',
-    'seeded search over (integrator x stepper program incl. underscore-prefixed stepper parameters, a source-less equation set, three equation sets in same-named groups, a stepper with one stage only next to a full one, a same-named integrator class compiled earlier, a callback object with false truth value; the literal execution uses independently compiled evaluators; particle states with ghost-tagged particles, 1-4 consecutive steps incl. t0 != 0 and non-contiguous times, periodic domain on/off, simulated schedule on/off); exact equality (tracing) or 1e-13 relative (shipped steppers) of the final state and equality of the compute_accelerations(index, update_nnps) / update_domain / post-stage (t + stage_dt, dt, stage) history. Sampling, not proof.',
+    'seeded search over (integrator x stepper program incl. underscore-prefixed stepper parameters, a source-less equation set, three equation sets in same-named groups, a stepper with one stage only next to a full one, a same-named integrator class compiled earlier, a callback object with false truth value or a bound method of a temporary; the literal execution uses independently compiled evaluators; particle states with ghost-tagged particles, 1-4 consecutive steps incl. t0 != 0 and non-contiguous times, periodic domain on/off, simulated schedule on/off); exact equality (tracing) or 1e-13 relative (shipped steppers) of the final state and equality of the compute_accelerations(index, update_nnps) / update_domain / post-stage (t + stage_dt, dt, stage) history. Sampling, not proof.',
     'the compiled acceleration evaluator is shared by both sides (C03\'s subject); rigid-body steppers (body-indexed arrays) left out; every run in its own forked child with the cyclic GC off (an unexplained segfault at garbage collection of earlier generated modules was seen once runs shared a process)',
     'DESIGN.md section 3 E-GROUP / section 4 C04')
 
